@@ -260,3 +260,19 @@ PROPS["C16"] = dict(
     bounds={"quick": "<= 2 edits, <= 3 hand-built entries", "thorough": "same scope"},
     assumptions=COMMON_ASSUMPTIONS + ["A and B are both loaded from XML so that they went through the same pipeline"],
 )
+
+
+PROPS["C14"] = dict(
+    level_text="Exhaustive within bounds: breadth-first exploration of every history over {register (all flag words, duplicate and NULL names), "
+               "set_value (every attribute x target x initiator x value of the small domains, invalid ones included), restrict, refresh, "
+               "switch-to-dup, switch-to-XML-reload} up to the depth bound from 5 roots on the real library with a table reference model; after "
+               "every step get_value / get_targets / get_initiators (with the *nr convention) / both best-of queries / local NUMA nodes for every "
+               "object x 8 flag words / default nodeset are compared with the table or their definition.",
+    technique="explicit-state BFS over memattr API histories of the real library against a table reference model",
+    design_ref="DESIGN.md 5 (C14)",
+    stages=[simple("memattrs", "c14_memattrs", parts=48, deadline={"quick": 120, "thorough": 3000})],
+    explanation="Roots: node:2 pu:2, node:4 pu:1, cpuless.xml (CPU-less nodes), nested.xml (nested locality), node:1 pu:2.",
+    bounds={"quick": "depth 2 plus a third step restricted to restrict/refresh/dup/XML after histories that stored values", "thorough": "depth 3"},
+    assumptions=COMMON_ASSUMPTIONS + ["stored cpuset initiators are pairwise disjoint (the domain the property defines); overlapping cpusets are only used as queries",
+                                      "best-of results are accepted when they are an optimal stored entry (ties allowed)"],
+)
